@@ -21,7 +21,7 @@ RULE = ("for each initial content (fixed set + seeded random compositions of the
         "new content) so that the content write genuinely comes back short, and once per cap (1, 7, 16 bytes) with every write() "
         "transferring at most that many bytes but succeeding. Oracle: the preload file afterwards holds exactly the old or exactly the "
         "new content (absent counts as old when it was absent). Beyond single runs: every call of the window failing with EIO/EINTR (plus "
-        "call-specific errnos: EBUSY/EXDEV/EPERM/ENOENT/ESTALE on rename, EACCES/EMFILE on open, early end of file on read); histories (a run killed at a window "
+        "call-specific errnos: EBUSY/EXDEV/EPERM/ENOENT/ESTALE on rename, EACCES/EMFILE on open, early end of file on read, and read faults that last: every read from call k on fails); histories (a run killed at a window "
         "call, the file then replaced by other content, a later run must produce exactly what it produces without that history); and two "
         "overlapping runs (the first held by a tracer delay on entry to its rename, the second killed at write-type calls or running to its end); and fault "
         "pairs: the rename failing with EBUSY/EXDEV plus a kill / ENOSPC / EIO at every call the command makes after that; and another package replacing the file atomically while the command is held on entry to each of its calls from the first touch of the file to its own rename (the file must end as one of the complete contents either party wrote). non-trivial = crash/fault point at or after the first call that "
@@ -264,6 +264,10 @@ def plans_for(calls, first_touch, quick):
             if name in ("read", "pread64"):
                 # end of file earlier than the size seen before (injected return values replace the call, so only 0 is faithful)
                 yield "%s:retval=0:when=%d" % (name, ordinal), True, ("early-eof", i, name)
+                # a failure that does not go away (a bad sector, a dead network mount): every read from this one on fails -- stdio
+                # quietly retries a single failed read of its look-ahead, so only a lasting fault reaches the code that reads the content
+                for e in ("EIO", "EINTR"):
+                    yield "%s:error=%s:when=%d+" % (name, e, ordinal), True, ("fault-lasting:" + e, i, name)
 
 
 _W = {}
